@@ -4,12 +4,16 @@ from vlib import common
 
 def key_fn(case, obs, verdict):
     f = case.split(" ")
+    if f[0] == "tr":
+        return "transport:" + verdict.split(":", 1)[-1]
     # format + what differs from the specified request (verdict names the field)
     return "%s:%s" % (f[1] if len(f) > 1 else "?", verdict.split(":", 1)[-1])
 
 
 def what_fn(case, obs, verdict):
     f = case.split(" ")
+    if f[0] == "tr":
+        return "http.Transport built by NewTransport does not carry the TransportConfig fields under the same names"
     return "request recorded by the target differs from the ammo entry + gun config (%s, format %s)" % (
         verdict.split(":", 1)[-1], f[1] if len(f) > 1 else "?")
 
@@ -19,7 +23,9 @@ def run(ctx):
         ctx, harness="hC09", extracted="C09_model", driver_dir="C09",
         rule=("one case = one engine run (real provider of one format with a `headers` option list, preload on/off + real http gun, "
               "1-3 pools in the run each with its own target on another port of the same host (127.0.0.1 or localhost), targets up or down "
-              "while the configuration is decoded, 1-4 instances per pool, plain or TLS target answering with a generated status and body size 0 B..1.2 MB, keep-alive on/off); non-trivial: the configuration defines headers and either some key "
+              "while the configuration is decoded, 1% of the cases with a 1.3-1.6 s pause between the requests (const schedule, run concurrently), "
+              "1-4 instances per pool, plain or TLS target answering with a generated status and body size 0 B..1.2 MB, keep-alive on/off); `tr` cases: the eight TransportConfig fields read back from the transport NewTransport builds; "
+              "non-trivial: every tr case; wire cases where the configuration defines headers and either some key "
               "(canonical form) is defined both by the configuration and by an entry/in-file header, or the file has more "
               "than one item; distinct = distinct case lines. Header comparison: map sorted by canonical key, value lists in "
               "order; dropped from the recorded request because net/http writes them on its own account: Content-Length "
